@@ -114,7 +114,7 @@ def schema_c10(rng, idx):
     return {"name": nm, "entities": ents}
 
 
-def schema_c11(rng, idx, ninv=None, complex_ref=False, mi=False, deep=False, redecl=False):
+def schema_c11(rng, idx, ninv=None, complex_ref=False, mi=False, deep=False, redecl=False, diamond=False):
     """targets with 1-3 inverse attributes (own and inherited, aggregate and single), several referrer entities,
     a referrer subtype, referrers that also mention the target through another attribute"""
     nm = f"iv{idx}"
@@ -145,6 +145,17 @@ def schema_c11(rng, idx, ninv=None, complex_ref=False, mi=False, deep=False, red
         ents += [{"name": "tsub2", "sup": "tsub", "attrs": [("e", "optstr", None)]},
                  {"name": "aux", "attrs": [("a", "int", None)]},
                  {"name": "tmi", "sups": ["aux", "tg"], "attrs": [("f", "optstr", None)]}]
+    if diamond:
+        # target hierarchies in which the inverse-declaring entity is inherited along two (dj) and four (dk) paths: the inverse
+        # is declared at the top (tg: the random inverses below, and the single-valued `keeper`) and in the middle (dl.lefts)
+        ents += [{"name": "own", "attrs": [("holder", "optref", "tg"), ("others", "setref", "tg")]},
+                 {"name": "dl", "sup": "tg", "attrs": [("l", "optstr", None)], "inverses": [("lefts", True, "own", "others")]},
+                 {"name": "dr", "sup": "tg", "attrs": [("r", "int", None)]},
+                 {"name": "dj", "sups": ["dl", "dr"], "attrs": [("j", "optstr", None)]},
+                 {"name": "dj2l", "sup": "dj", "attrs": [("a2", "int", None)]},
+                 {"name": "dj2r", "sup": "dj", "attrs": [("b2", "optstr", None)]},
+                 {"name": "dk", "sups": ["dj2l", "dj2r"], "attrs": [("k", "int", None)]}]
+        ent({"entities": ents}, "tg")["inverses"].append(("keeper", False, "own", "holder"))
     if redecl:
         # a referrer subtype that redeclares the inverted attribute (SELF\rel.one : tsub)
         ents.append({"name": "rre", "sup": "rel", "attrs": [("zr", "int", None)], "redecl": [("one", "rel", "tsub")]})
